@@ -42,6 +42,7 @@ type PSeq struct {
 	Torn       int    `json:"torn,omitempty"`       // byte-level truncations per growing write (0 = none, -1 = every offset)
 	Redurable  int    `json:"redurable,omitempty"`  // after restoring the final image cut by this many bytes, write again and restart once more
 	NoGuard    bool   `json:"noGuard,omitempty"`    // do not repair a stuck mutation flag before a rewrite / snapshot
+	Auto       *AutoSpec `json:"auto,omitempty"`    // an automatic-snapshot trial instead of a history
 }
 
 type image struct {
@@ -428,6 +429,9 @@ func init() {
 		}
 		if HookSched != nil {
 			HookSched(name)
+		}
+		if HookAuto != nil {
+			HookAuto(name)
 		}
 		if r := activeRun; r != nil {
 			r.hook(name)
